@@ -74,7 +74,9 @@ TValues == /\ IsEvent("values")
 TCommit == /\ IsEvent("commit")
            /\ CommitRel(h, e.flags, e.ret)
            /\ (e.ret = 0 <=> e.errno = "0")
-           /\ e.check_ok = 1                         \* grouping (or anything else) left a topology hwloc_topology_check() accepts
+           \* when grouping was requested hwloc_topology_check() ran (in a child process) and must have returned;
+           \* otherwise the recorder does not run it (-1)
+           /\ e.check_ok = (IF HasBit(e.flags, 1) THEN 1 ELSE -1)
            /\ ObsOK(e)
            /\ IF e.ret = 0 THEN SameUpToHet(Append(ds, Entry(h)), Obs(e)) ELSE BagEq(ds, Obs(e))
            /\ ds' = Obs(e) /\ h' = NoHandle
